@@ -6,7 +6,7 @@
    theorems over the real numbers (sd/corr, UCP), which depend on the standard axioms of Coq.Reals. *)
 From Coq Require Import List Bool PArith Arith Permutation.
 From Coq Require Import Reals QArith.
-From PV Require Import Base.PyData Base.Expr C11.Model C11.Proofs C11.NumModel C11.NumProofs C11.JdModel C11.JdProofs C11.Ldl.
+From PV Require Import Base.PyData Base.Expr C11.Model C11.Proofs C11.NumModel C11.NumProofs C11.JdModel C11.JdProofs C11.Ldl C11.VarParams.
 Import ListNotations.
 Local Open Scope nat_scope.
 
@@ -334,6 +334,19 @@ Theorem ie_cov_init_formula :
     fround7 (let c := (sqrt (pget R 0%R p parent2) * fget R 0%R corr 1 0 * sqrt (pget R 0%R p parent1))%R in
              if ris0 c then small else c).
 Proof. exact ie_cov_init_formula_lemma. Qed.
+
+(* RandomVariables.variance_parameters, for every collection with symbolic entries (shared symbols allowed):
+   the answer has no repetition and lists exactly the symbols on the diagonals of the distributions ... *)
+Theorem variance_parameters_exact : forall (r : scoll) (l : list id),
+  variance_parameters r = Ok l ->
+  NoDup l /\ forall p, In p l <-> exists d, In d r /\ In (Some p) (diag_entries d).
+Proof. exact variance_parameters_lemma. Qed.
+
+(* ... which, for a well-formed collection, are exactly the variances of its named random variables *)
+Theorem variance_parameters_are_variances : forall (r : scoll) (p : id), wf sym r = true ->
+  ((exists d, In d r /\ In (Some p) (diag_entries d)) <->
+   exists x, In x (names r) /\ variance sym None r x = Some (Some p)).
+Proof. exact diag_entries_variance. Qed.
 
 (* ================================ numeric side ==================================================== *)
 
